@@ -148,7 +148,7 @@ fn main() {
             println!(
                 "{}",
                 serde_json::json!({"builds": st.builds, "evals": st.evals, "skipped_numeric_types": st.skipped_numeric,
-                                   "skipped_contexts": st.skipped_context, "bad_lines": st.bad})
+                                   "skipped_contexts": st.skipped_context, "skipped_large": st.skipped_large, "bad_lines": st.bad})
             );
         },
         Some("probe-lenunit") => {
